@@ -60,12 +60,29 @@ type nodeMon struct {
 	lastRoundH   int64
 	lastH, lastV uint64
 	sampled      bool
+	// C17, future cache at worker level
+	futMax     uint64              // highest future height of any message received so far
+	futUnknown bool                // bytes arrived whose height cannot be told: nothing is expected of the cache any more
+	futExp     map[uint64][]futExp // height -> messages of correct members that the cache has to hand to the term of that height
+	storeTried map[string]bool     // (kind, h, v, hash, sender) the protocol logic handed to the Storage
+}
+
+// futExp is a PREPARE or COMMIT of a correct member received while its height was still ahead of the node.
+type futExp struct {
+	kind   spi.Kind
+	v      uint64
+	hash   string
+	sender string
+}
+
+func storeKey(kind spi.Kind, h, v uint64, hash, sender string) string {
+	return fmt.Sprintf("%d|%d|%d|%x|%s", kind, h, v, hash, sender)
 }
 
 func newNodeMon() *nodeMon {
 	return &nodeMon{proposals: map[hvh]bool{}, validNV: map[hv]map[string]bool{}, prepares: map[hvh]map[string]bool{}, commits: map[hvh]map[string]bool{},
 		votes: map[hv]map[string]*ref.Vote{}, validated: map[string]bool{}, barePP: map[hvh]bool{}, storedPP: map[hv]string{}, blockless: map[hv]bool{}, storedP: map[hvh]map[string]bool{}, heldCert: map[uint64]map[uint64]string{}, ignoredNV: map[uint64]uint64{}, electedAt: map[hv]bool{}, sentPP: map[hv]string{}, sentP: map[hv]string{}, sentC: map[hv]string{}, lastVC: map[uint64]uint64{},
-		storedVC: map[hv]map[string]*interfaces.ViewChangeMessage{}, lastCommitH: -1, lastRoundH: -1}
+		storedVC: map[hv]map[string]*interfaces.ViewChangeMessage{}, lastCommitH: -1, lastRoundH: -1, futExp: map[uint64][]futExp{}, storeTried: map[string]bool{}}
 }
 
 type Monitors struct {
@@ -303,10 +320,102 @@ func (w *World) SeedBytes(h uint64) []byte {
 	return seedBytes(prevSig)
 }
 
+// noteFuture (C17 at worker level): a PREPARE or COMMIT a correct member sent for a height the node has not reached yet is
+// accepted for caching when nothing for a higher height was received before it; it stays due until something for a
+// higher height arrives, and has to reach the protocol logic of that height's term when the node starts that height.
+func (m *Monitors) noteFuture(n *Node, f *Flight, pre preState) {
+	nm := m.node(n.Id)
+	if nm.futUnknown {
+		return
+	}
+	bump := func(h uint64) {
+		if h > nm.futMax {
+			for x := range nm.futExp {
+				if x < h {
+					delete(nm.futExp, x)
+				}
+			}
+			nm.futMax = h
+		}
+	}
+	if f.Msg == nil {
+		// bytes the reference does not read: only the height matters here (it may evict what is cached)
+		h, ok := func() (h uint64, ok bool) {
+			defer func() {
+				if recover() != nil {
+					ok = false
+				}
+			}()
+			pm := interfaces.ToConsensusMessage(f.Raw)
+			if pm == nil {
+				return 0, true
+			}
+			return uint64(pm.BlockHeight()), true
+		}()
+		if !ok {
+			nm.futUnknown = true
+			nm.futExp = map[uint64][]futExp{}
+			return
+		}
+		if h > pre.H {
+			bump(h)
+		}
+		return
+	}
+	msg := f.Msg
+	if msg.H <= pre.H {
+		return
+	}
+	if msg.H >= nm.futMax && f.Honest && m.w.IsCorrect(f.From) && msg.Inst == uint64(spi.InstanceId) && msg.Sender.Id != n.Id && msg.H <= m.w.Cfg.MaxH+1 {
+		switch msg.Env {
+		case ref.EnvP:
+			nm.futExp[msg.H] = append(nm.futExp[msg.H], futExp{spi.EvStoreP, msg.V, string(msg.Hash), msg.Sender.Id})
+		case ref.EnvC:
+			nm.futExp[msg.H] = append(nm.futExp[msg.H], futExp{spi.EvStoreC, msg.V, string(msg.Hash), msg.Sender.Id})
+		}
+	}
+	bump(msg.H)
+}
+
+// judgeFuture runs after every step of node n: the round of a height with due messages has been started.
+func (m *Monitors) judgeFuture(n *Node, nm *nodeMon, h, v uint64) {
+	if len(nm.futExp) == 0 || nm.lastRoundH < 0 {
+		return
+	}
+	for H, exps := range nm.futExp {
+		if int64(H) > nm.lastRoundH {
+			continue
+		}
+		delete(nm.futExp, H)
+		c := m.w.Comm(H)
+		// (a height the node jumped over, one that a cached message has already ended, or one whose committee the node is not in: nothing due)
+		if int64(H) != nm.lastRoundH || h != H || !c.Has(n.Id) || n.Wedged {
+			continue
+		}
+		for _, x := range exps {
+			if !c.Has(x.sender) {
+				continue
+			}
+			if x.kind == spi.EvStoreP && (v != 0 || c.Leader(x.v) == x.sender) {
+				continue // (the node has left view 0 while consuming: a PREPARE of an earlier view may have been refused as stale)
+			}
+			m.Stats["C17 cached messages of correct members judged at the start of their height"]++
+			if !nm.storeTried[storeKey(x.kind, H, x.v, x.hash, x.sender)] {
+				what := "PREPARE"
+				if x.kind == spi.EvStoreC {
+					what = "COMMIT"
+				}
+				m.violate("C17", "cached-future-message-not-delivered", "node %s: the %s (h=%d v=%d hash=%x) of correct member %s was received while the node was below height %d, nothing for a higher height had been received before it or since, the node has now started height %d as a committee member — and the message never reached the protocol logic of that term (it was not handed to the Storage)", n.Id, what, H, x.v, short([]byte(x.hash)), x.sender, H, H)
+			}
+		}
+	}
+}
+
 func (m *Monitors) PreDelivery(n *Node, f *Flight) *deliveryCtx {
 	d := m.PreStep(n)
 	d.f = f
 	m.cur = d
+	m.noteFuture(n, f, d.pre)
 	if f.Msg == nil {
 		return d
 	}
@@ -557,6 +666,7 @@ func (m *Monitors) sample(n *Node) {
 		m.violate("C17", "height-without-its-term", "node %s: the observable height is %d while the installed term is the one of height %d: messages of height %d now reach a term of another height", n.Id, h, nm.lastRoundH, h)
 	}
 	nm.lastH, nm.lastV, nm.sampled = h, v, true
+	m.judgeFuture(n, nm, h, v)
 }
 
 // ---------------------------------------------------------------- online event monitors
@@ -815,6 +925,9 @@ func (m *Monitors) judgeC04(n *Node, e *spi.Event) {
 
 func (m *Monitors) onStore(n *Node, nm *nodeMon, e *spi.Event) {
 	w := m.w
+	if e.Kind == spi.EvStoreP || e.Kind == spi.EvStoreC {
+		nm.storeTried[storeKey(e.Kind, e.H, e.V, e.Hash, e.Sender)] = true
+	}
 	// what the node itself recorded (Storage SPI): basis of "holds a prepared certificate"
 	if e.Ok && (e.Kind == spi.EvStorePP || e.Kind == spi.EvStoreP) {
 		if e.Kind == spi.EvStorePP {
